@@ -469,6 +469,8 @@ func init() {
 				"[1, 2].slice(2)", "[1, 2].slice(1, 1)", "arr.slice(3)", "arr.slice(9).reverse()", `"".split("")`, `"a,b".split(",").slice(2)`, "[1].slice(1).shuffle()", `"<b>".truncate(3, "")`, `"&".at(1)`,
 				"0", "7", "neg", "big", "low", "(0 - 1)", "1.5", "fz", "fneg", "(0.0 - 2.5)", "1000000.5", "nan", "inf", "ninf", "tiny", "huge", "(0.0 / 0.0)", "(1.0 / 0.0)", "true", "false", "t",
 				"nil", "n", "obj", "{}", "row", "nilp",
+				// strings that are almost numbers; receivers of exactly 255, 256 and 257 characters or elements
+				`"-"`, `"+"`, `"."`, `"-."`, `"+5"`, `"1e5"`, `" 5"`, `"٣"`, `"x".repeat(255)`, `"x".repeat(256)`, `"é".repeat(257)`, `"x".repeat(255).split("")`, `"x".repeat(256).split("")`,
 			}
 			var calls []call
 			for _, rc := range recvs {
@@ -507,6 +509,35 @@ func init() {
 					}
 					if i%97 == 0 {
 						c.Sample(fmt.Sprintf("(%s).%s(…) with 0..3 arguments from %d boundary values", cl.recv, cl.name, len(argVals)))
+					}
+				}})
+			// receivers of every size around the powers of two up to 2^13 (2^16 in the thorough tier): every argument-less built-in returns
+			sizes := []int{}
+			maxP := 13
+			if tier == core.Thorough {
+				maxP = 16
+			}
+			for p := 0; p <= maxP; p++ {
+				for d := -1; d <= 1; d++ {
+					if n := 1<<p + d; n >= 0 {
+						sizes = append(sizes, n)
+					}
+				}
+			}
+			secs = append(secs, core.Section{Name: "size-ladder", Exhaustive: true, N: len(sizes),
+				Run: func(c *core.Ctx, i int) {
+					n := sizes[i]
+					for _, recv := range []string{fmt.Sprintf(`"x".repeat(%d)`, n), fmt.Sprintf(`"é".repeat(%d)`, n), fmt.Sprintf(`"ab".repeat(%d).split("")`, (n+1)/2), fmt.Sprintf("%d", n), fmt.Sprintf("%d.5", n)} {
+						for _, name := range allBuiltinNames {
+							if name == "shuffle" && n > 5000 {
+								continue
+							}
+							src := "{{ x = (" + recv + ")." + name + "() }}{{ x == x }}"
+							c.Input(map[string]any{"source": src})
+							got := evalString(c, src, nil)
+							c.Nontrivial(src)
+							checkOutcome(c, got, src, true)
+						}
 					}
 				}})
 			// not-a-number, infinities, the smallest and the largest float under every operator
